@@ -201,3 +201,48 @@ def check(prop, tier, seed, focus=None, props_of_interest=None):
                    "hook H1 brackets every Expr::resolve; the logging target sees every target operation",
                    "bounded grammar: see GenCore.tla for the atom sets and nesting of this focus and tier"]
     return verdict(prop, tier, seed, LEVEL.get(prop, "model_checking"), coverage, mine, assumptions, t0, replay_writer)
+
+
+def check_unused(prop, tier, seed):
+    """C34: unused-result warnings only flag removable code (TraceUnused.tla decides)."""
+    t0 = time.time()
+    wd = workdir(f"{prop}_{tier}")
+    build_harness()
+    cases, events, gst, gtr = generate("C34", tier, wd)
+    shards = max(1, min(NCPU, len(cases) // 8))
+    traces = replay(cases, events, wd, shards, sub="unused")
+    agg = aggregate(validate(traces, wd, spec="TraceUnused.tla"))
+    cnt = agg["cnt"]
+    samples = []
+    for t in traces:
+        with open(t) as f:
+            for l in f:
+                if l.startswith('{"e":"unused"') and len(samples) < 5:
+                    j = json.loads(l)
+                    samples.append({"program": j["src"], "warning": j["msg"], "edited": j["edited"], "events": len(j["runs"])})
+
+    def replay_writer(v):
+        with open(v["_file"]) as f:
+            line = f.readlines()[v["line"] - 1]
+        return {"engine": "A/unused", "record": json.loads(line)}
+
+    nruns = (cnt.get("judged", 0)) * (len(events) if events else 1)
+    coverage = {
+        "states": gst + agg["states"], "transitions": gtr + agg["transitions"],
+        "traces_validated_against_impl": nruns * 2, "samples": samples,
+        "evaluations": cnt.get("judged", 0) + cnt.get("unjudged", 0) + cnt.get("nowarn", 0),
+        "distinct_nontrivial": cnt.get("judged", 0),
+        "rule": "programs = prelude; one (thorough: two) discarded statement from the C34 grammar of GenCore.tla (literals, "
+                "objects, arrays, pure calls, operators, blocks, ifs, closures - with and without assignments / del hidden "
+                "inside), also nested in a block; observation. Non-trivial = the real compiler issued an unused-result warning "
+                "covering the whole statement and the statement-deleted program compiled (judged)",
+        "programs_generated": len(cases), "warnings_judged": cnt.get("judged", 0),
+        "warnings_unjudged": cnt.get("unjudged", 0), "programs_without_warning": cnt.get("nowarn", 0),
+        "judged_removable": cnt.get("removable", 0), "judged_not_removable": cnt.get("not_removable", 0),
+        "programs_rejected_by_compiler": cnt.get("reject", 0), "exhaustive": True,
+    }
+    assumptions = ["a warning is judged only when its label span is exactly one root statement of the generated source",
+                   "fallibility of the statement is the real compiler's own (hook H2 record of the statement node)"]
+    mine = [v for v in agg["viols"] if v["prop"] == prop]
+    write_json(os.path.join(wd, "findings.json"), [{"sig": sig_of(v), "what": v.get("what")} for v in agg["viols"]])
+    return verdict(prop, tier, seed, "model_checking", coverage, mine, assumptions, t0, replay_writer)
